@@ -1,0 +1,15 @@
+//go:build verif
+
+package sched
+
+// VerifExecutorHook, when set (once, before any executor is used), is called at the executor's
+// schedule points: "execute.checked" (Execute: after the state check, before the queue send)
+// and "shutdown.joined" (Shutdown: after wg.Wait, before close(queue)).  A harness blocks in
+// it to hold a goroutine at the point.
+var VerifExecutorHook func(e *ThreadPoolExecutor, name string)
+
+func (e *ThreadPoolExecutor) verifPoint(name string) {
+	if h := VerifExecutorHook; h != nil {
+		h(e, name)
+	}
+}
